@@ -36,6 +36,10 @@ def strategy_(draw, tier):
     d = D(draw)
     fam = d.choice(FAMILIES)
     enzymes = cveval.STRICT_ENZYMES if tier == 'quick' or d.chance(0.5) else cveval.ALL_ENZYMES
+    if fam == 'small' and d.chance(0.2):
+        planted = plant_exception(d)
+        if planted:
+            return planted
     dense = fam in ('small', 'multi') and d.chance(0.5)
     case = cveval.gen_case(d, family=fam, enzymes=enzymes,
         n_small=(5, 11) if dense else (2, 6), spread=d.randint(4, 10) if dense else 12,
@@ -48,6 +52,33 @@ def strategy_(draw, tier):
         additional_variants_per_misc=d.choice([[0], [1], [2], [2, 0], [1, 0]]),
         min_nodes_to_collapse=a, naa_to_collapse=b)
     case['timeouts'] = d.choice([0, 0, 1, 2, 3])
+    return case
+
+
+def plant_exception(d):
+    """ trypsin with its cleavage exception and an exception motif in reference sequence
+    between two variant bubbles (cveval.plant_exception_between_sites); the unchanged tree is
+    clean on this geometry, so these cases are judged without the CV-trypsin-exception
+    tolerance """
+    refd = refgen.gen_reference(d, n_genes=(1, 1), max_tx=1, p_nf=0.0, p_sec=0.0,
+        p_coding=1.0, n_exons=(1, 2), exon_len=(120, 170),
+        utr_styles=('gencode', 'gencode', 'ensembl'))
+    tid = list(Ref(refd).txs)[0]
+    planted = None
+    for _ in range(4):
+        planted = planted or cveval.plant_exception_between_sites(d, refd, tid)
+    if not planted:
+        return None
+    refd, records, window = planted
+    opts = cveval.gen_opts(d, ['trypsin'], alt=False, limits=True,
+        exceptions=('auto', 'trypsin_exception'))
+    opts.update(miscleavage=d.choice([1, 2, 2, 3]), min_length=d.choice([5, 7]),
+        max_length=d.choice([25, 30]))
+    case = dict(family='small', ref=refd, records=records, opts=opts,
+        planted='exception_between_sites', dense=False, window=window)
+    case['limits'] = dict(max_variants_per_node=[7], additional_variants_per_misc=[2],
+        min_nodes_to_collapse=30, naa_to_collapse=5)
+    case['timeouts'] = d.choice([0, 0, 1])
     return case
 
 
@@ -106,6 +137,18 @@ def unsound(case, res, out, dom=()):
     return bad
 
 
+def planted_site_cut(case, bad):
+    """ unrealizable peptides that end or start at the planted exception site of an
+    'exception_between_sites' case. The 19 residues around it are reference sequence that no
+    record touches, so the CV-trypsin-exception tolerance (variant peptides around exception
+    sites) does not cover them: the unchanged tree never cuts there (0 of 2,500 planted
+    inputs at calibration). """
+    if case.get('planted') != 'exception_between_sites':
+        return []
+    w = case['window']
+    return [(seq, hdr) for seq, hdr in bad if seq.endswith(w[3:8]) or seq.startswith(w[8:13])]
+
+
 def prop(case, ctx):
     # pylint: disable=too-many-return-statements,too-many-branches
     out = Outcome()
@@ -130,6 +173,9 @@ def prop(case, ctx):
             return out
         return out.fail(f'callVariant raised {type(e).__name__}: {e}', bucket)
     bad = unsound(case, res0, out, dom)
+    if bad and planted_site_cut(case, bad):
+        return out.fail(f'cut at the planted exception site: {planted_site_cut(case, bad)[:3]}',
+            'unsound:planted-exception-site', detail=dict(bad=bad[:10]))
     if bad and dom:
         out.known.append(dom[0])
         return out
@@ -161,6 +207,10 @@ def prop(case, ctx):
             return out
         return out.fail(f'limited run raised {type(e).__name__}: {e}', bucket + ':limited')
     bad = unsound(case, res1, out, dom)
+    if bad and planted_site_cut(case, bad):
+        return out.fail('cut at the planted exception site (limited run): '
+            f'{planted_site_cut(case, bad)[:3]}', 'unsound:planted-exception-site',
+            detail=dict(bad=bad[:10]))
     aggressive = lim['naa_to_collapse'] <= 1 and not os.environ.get('VERIF_NO_AGGR')
     if bad and (dom or aggressive):
         out.known.append(dom[0] if dom else 'C01-collapse-knobs-aggressive')
